@@ -159,7 +159,15 @@ def run(ctx):
             rep['gradient_extra'] = [how, gs, gc]
             with warnings.catch_warnings():
                 warnings.simplefilter('ignore')
-                G = nds.Gradient(g, method=meth)(x.reshape(shape), *ga, **gk)
+                xg = x.reshape(shape)
+                layout = 'C'
+                if n >= 2 and n % 2 == 0 and rng.random() < 0.5:
+                    # a 2-d point whose memory order is not its logical order (Fortran-ordered copy / transposed view): the gradient is
+                    # with respect to the elements in logical (C) order, x.ravel()[k]
+                    layout = rng.choice(['F', 'T'])
+                    xg = np.asfortranarray(x.reshape(2, n // 2)) if layout == 'F' else np.ascontiguousarray(x.reshape(2, n // 2).T).T
+                rep['gradient_x_layout'] = [layout, list(np.shape(xg))]
+                G = nds.Gradient(g, method=meth)(xg, *ga, **gk)
             want_shape = () if n == 1 else (n,)
             if np.shape(G) != want_shape:
                 ctx.violation('nd_scipy.Gradient shape is not (n,) / 0-d', got=list(np.shape(G)), expected=list(want_shape), **rep)
